@@ -552,6 +552,8 @@ impl Searcher {
         alpha: eval::Evaluation,
         beta: eval::Evaluation,
     ) -> Result<eval::Evaluation, SearchInterrupt> {
+        #[cfg(feature = "verif")]
+        verif::observe(verif::Site::Quiescence, 0);
         let mut buffer = MoveGenerationBuffer::new();
         MoveGenerator::compute_legal_moves_into(&game_state, &mut buffer);
 
@@ -1195,6 +1197,7 @@ pub mod verif {
     #[derive(Debug, Clone, Copy, PartialEq, Eq, Hash)]
     pub enum Site {
         Node,
+        Quiescence,
         TableInsert,
         TableFind,
         Cancel,
